@@ -23,5 +23,19 @@ u8* _ZNK8Pistache12StreamCursor6offsetEv(u8* c) { return CC_SB(c)->gptr; }
 u8* _ZNK8Pistache12StreamCursor6offsetEm(u8* c, u64 off) { return CC_SB(c)->eback + off; }
 void _ZN8Pistache12StreamCursor5resetEv(u8* c) { CC_SB(c)->eback = 0; CC_SB(c)->gptr = 0; CC_SB(c)->egptr = 0; }
 u64 _ZNK8Pistache12StreamCursor4diffEm(u8* c, u64 other) { return ((u64)CC_SB(c)->gptr - (u64)CC_SB(c)->eback) - other; }
+/* match_until(initializer_list<char>{c...}, cursor, Insensitive) as proven by cursor_until: stops at the first byte equal
+ * to a (lower-cased) delimiter, or at the end of the delivered bytes; true iff a delimiter was found */
+static u8 cc_lc(u8 c) { return (c >= 'A' && c <= 'Z') ? c + 32 : c; }
+u8 _ZN8Pistache11match_untilESt16initializer_listIcERNS_12StreamCursorENS_15CaseSensitivityE(u8* set, u64 ns, u8* c, u32 cs) {
+  __CPROVER_assert(cs == 1 && ns >= 1 && ns <= 3, "match_until contract covers the default (Insensitive) mode with 1..3 delimiters");
+  u8* p = CC_SB(c)->gptr; u8* e = CC_SB(c)->egptr;
+  while (p != e) { u8 b = *p; if (b == cc_lc(set[0]) || (ns >= 2 && b == cc_lc(set[1])) || (ns >= 3 && b == cc_lc(set[2]))) break; p++; }
+  CC_SB(c)->gptr = p; return p != e; }
+u8 _ZN8Pistache11match_untilEcRNS_12StreamCursorENS_15CaseSensitivityE(u8 ch, u8* c, u32 cs) { u8 set[1] = { ch }; return _ZN8Pistache11match_untilESt16initializer_listIcERNS_12StreamCursorENS_15CaseSensitivityE(set, 1, c, cs); }
+/* match_raw(buf, len, cursor) as proven by cursor_raw */
+u8 _ZN8Pistache9match_rawEPKvmRNS_12StreamCursorE(u8* pat, u64 m, u8* c) {
+  if (CC_AVAIL(c) < m) return 0;
+  for (u64 i = 0; i < m; i++) if (CC_SB(c)->gptr[i] != pat[i]) return 0;
+  CC_SB(c)->gptr += m; return 1; }
 #endif
 #endif
